@@ -45,6 +45,16 @@ func c06Faults() []c06Fault {
 		e("property-store-on-number", func() *model.N { return model.PAsg(id("o2"), "zz", n(1)) }),
 		e("call-non-function", func() *model.N { return model.Call(n(1), n(2)) }),
 		e("arity", func() *model.N { return model.CallN("f1", n(1), n(2)) }),
+		// the same three call faults with the callee written as an element, a property, a call result, a group
+		e("arity-via-element", func() *model.N { return model.Call(model.Idx(id("farr"), n(0)), n(1), n(2)) }),
+		e("arity-via-property", func() *model.N { return model.Call(model.Prop(id("fobj"), "f"), n(1), n(2)) }),
+		e("arity-via-call-result", func() *model.N { return model.Call(model.CallN("getf"), n(1), n(2)) }),
+		e("arity-via-group", func() *model.N { return model.Call(model.Grp(id("f1")), n(1), n(2)) }),
+		e("call-non-function-element", func() *model.N { return model.Call(model.Idx(id("arr"), n(1)), n(2)) }),
+		e("call-non-function-property", func() *model.N { return model.Call(model.Prop(id("o"), "k"), n(2)) }),
+		e("call-non-function-call-result", func() *model.N { return model.Call(model.CallN("f1", n(3)), n(2)) }),
+		e("builtin-failing-via-element", func() *model.N { return model.Call(model.Idx(model.Arr(id(model.BiLen)), n(0)), n(7)) }),
+		e("builtin-failing-via-property", func() *model.N { return model.Call(model.Prop(model.Grp(model.Obj([]string{"m"}, []*model.N{id(model.BiSqrt)})), "m"), model.Str("x")) }),
 		e("builtin-wrong-kind", func() *model.N { return model.CallN(model.BiLen, n(1)) }),
 		e("builtin-wrong-count", func() *model.N { return model.CallN(model.BiSqrt) }),
 		e("delete-missing-key", func() *model.N { return model.CallN(model.BiDelete, id("o"), model.Str("zz")) }),
@@ -113,6 +123,7 @@ func c06Prelude() []*model.N {
 		model.Var("o", model.Obj([]string{"k"}, []*model.N{n(1)})),
 		model.Var("o2", n(5)),
 		model.Var("arr", model.Arr(n(10), n(20), n(30))),
+		model.Var("farr", model.Arr(id("f1"))), model.Var("fobj", model.Obj([]string{"f"}, []*model.N{id("f1")})), model.Fun("getf", nil, model.Return(id("f1"))),
 		model.Var("arr2", model.Arr(model.Obj([]string{"k"}, []*model.N{n(1)}), model.Obj([]string{"k"}, []*model.N{n(2)}))),
 		model.Var("v", n(0)),
 	}
